@@ -4,6 +4,7 @@ import (
 	"fmt"
 	"reflect"
 	"sort"
+	"strings"
 
 	ucfg "github.com/elastic/go-ucfg"
 
@@ -219,12 +220,29 @@ func c13Collections() *core.Space {
 		}
 	}
 	polTag := []string{`config:"f"`, `config:"f,append"`, `config:"f,prepend"`}
+	// the map shapes are unpacked a second way: as an inlined field (the settings of the map sit at
+	// the level of the struct), with the same policies
+	inlTag := []string{`config:",inline"`, `config:",inline,append"`, `config:",inline,prepend"`}
+	isInlineable := func(name string) bool { return strings.HasPrefix(name, "map[string]") }
+	for si, sh := range shapes {
+		if !isInlineable(sh.Name) {
+			continue
+		}
+		for ci := range sh.Cfgs {
+			for pol := 0; pol < 3; pol++ {
+				cases = append(cases, cs{si, ci, pol, 2})
+			}
+		}
+	}
 	return &core.Space{
 		Name: "collection-shapes",
 		Size: len(cases),
 		Text: func(i int) string {
 			c := cases[i]
 			sh := shapes[c.shape]
+			if c.sibling == 2 {
+				return fmt.Sprintf("F %s `%s` pre-filled %s, config (at the level of the struct): %v", sh.Name, inlTag[c.pol], c13Show(reflect.ValueOf(sh.Pre())), sh.Cfgs[c.cfg])
+			}
 			return fmt.Sprintf("F %s `%s` pre-filled %s, config f: %v%s", sh.Name, polTag[c.pol], c13Show(reflect.ValueOf(sh.Pre())), sh.Cfgs[c.cfg], []string{"", " (and a setting for the sibling field)"}[c.sibling])
 		},
 		Exec: func(i int) core.Result {
@@ -240,8 +258,13 @@ func c13Collections() *core.Space {
 					pre = pre.Elem()
 					ft = pre.Type()
 				}
+				tag := polTag[c.pol]
+				if c.sibling == 2 {
+					tag = inlTag[c.pol]
+					sig += " inline"
+				}
 				st := reflect.StructOf([]reflect.StructField{
-					{Name: "F", Type: ft, Tag: reflect.StructTag(polTag[c.pol])},
+					{Name: "F", Type: ft, Tag: reflect.StructTag(tag)},
 					{Name: "Sib", Type: reflect.TypeOf(0)},
 					{Name: "Keep", Type: reflect.TypeOf("")},
 				})
@@ -256,6 +279,9 @@ func c13Collections() *core.Space {
 				}
 				want := c13Merge(ft, pre2, sh.Cfgs[c.cfg], c.pol)
 				in := M{"f": sh.Cfgs[c.cfg]}
+				if c.sibling == 2 {
+					in = sh.Cfgs[c.cfg].(M)
+				}
 				wantSib := int64(3)
 				if c.sibling == 1 {
 					in["sib"] = 4
